@@ -19,6 +19,7 @@ var c16Chunks = []string{
 	`\n`, "\\u0041", `\ud83d`, `\ude00`, // escape-like texts taken literally as key characters
 	"&", "|", ">", "#", "%",
 	"\ufffd", // also reachable through lone-surrogate escapes
+	"\u3000", "\u00a0", // Unicode blanks (never the same as an ASCII space)
 }
 
 // c16Core: the sub-alphabet used for longer keys.
